@@ -48,7 +48,13 @@ Inductive decision := DSame | DNext | DDont | DIgnore.
 Inductive fault :=
 | FConnFail                       (* target.get_connection() failed: nothing is sent *)
 | FErr (e : err) (d : decision)   (* the attempt is sent, fails with e, the session decides d *)
-| FTimeout.                       (* the attempt is sent; the client-side timeout fires first *)
+| FTimeout                        (* the attempt is sent; the client-side timeout fires first *)
+| FUnprep.                        (* EXECUTE answered UNPREPARED: Connection::execute_raw_with_consistency
+                                     re-prepares and re-sends the SAME frame parameters (paging state
+                                     included) on the same connection, inside the same attempt; what
+                                     follows in the list happens to the re-sent frame.  Two adjacent
+                                     FUnprep are not meaningful (the second UNPREPARED would surface as
+                                     an error) and are never generated. *)
 
 (* what a successful attempt receives *)
 Inductive response :=
@@ -88,6 +94,7 @@ Fixpoint attempts (fs : list fault) (resp : response) (t : target) (rest : list 
       match f with
       | FConnFail => next_target e_pool
       | FTimeout => ([t], FFailed e_timeout)
+      | FUnprep => let (l, r) := attempts fs' resp t rest in (t :: l, r)
       | FErr e d =>
           match d with
           | DSame => let (l, r) := attempts fs' resp t rest in (t :: l, r)
@@ -112,6 +119,7 @@ Definition conn_fault (f : fault) : list fault :=
   | FConnFail => []
   | FErr e _ => [FErr e DDont]
   | FTimeout => [FTimeout]
+  | FUnprep => [FUnprep]            (* the re-prepare lives in Connection, below both pagers *)
   end.
 
 Definition fetch_one (m : mode) (stable : option target) (ps : pscript)
@@ -429,6 +437,7 @@ Definition fault_retried (f : fault) : bool :=
   | FConnFail => true
   | FErr _ DSame => true
   | FErr _ DNext => true
+  | FUnprep => true
   | _ => false
   end.
 Definition fault_advances (f : fault) : bool :=
@@ -453,15 +462,14 @@ Definition page_retried (m : mode) (ps : pscript) : bool :=
   | MSession =>
       forallb fault_retried (ps_faults ps) && nodupb (ps_plan ps) &&
       (List.length (filter fault_advances (ps_faults ps)) <? List.length (ps_plan ps))%nat
-  | MConn =>
-      match flat_map conn_fault (ps_faults ps) with [] => true | _ => false end
+  | MConn => forallb fault_retried (flat_map conn_fault (ps_faults ps))
   end.
 
 (* number of requests the server sees for a page whose faults are all retried *)
 Definition page_requests (m : mode) (ps : pscript) : nat :=
   match m with
   | MSession => S (List.length (filter fault_sent (ps_faults ps)))
-  | MConn => 1%nat
+  | MConn => S (List.length (filter fault_sent (flat_map conn_fault (ps_faults ps))))
   end.
 
 Fixpoint enumerate_from {A} (i : nat) (l : list A) : list (nat * A) :=
@@ -510,76 +518,116 @@ Definition good_script (m : mode) (script : list pscript) : bool :=
   forallb (fun ps => is_rows (ps_resp ps) && page_retried m ps) script &&
   closed_chain (script_pages script).
 
-(* a page whose fetch ends in a non-retried failure: retried faults (the plan lasting), then
-   an error the policy does not retry, or the client-side timeout *)
-Fixpoint split_retried (fs : list fault) : list fault * option fault :=
-  match fs with
-  | [] => ([], None)
-  | f :: r =>
-      if fault_retried f then let (p, x) := split_retried r in (f :: p, x) else ([], Some f)
-  end.
-Definition fault_fails (f : fault) : option err :=
-  match f with
-  | FErr e DDont => Some e
-  | FTimeout => Some e_timeout
-  | _ => None
-  end.
-Definition page_fails (m : mode) (ps : pscript) : option err :=
-  match m with
-  | MSession =>
-      let (pre, x) := split_retried (ps_faults ps) in
-      if nodupb (ps_plan ps) &&
-         (List.length (filter fault_advances pre) <? List.length (ps_plan ps))%nat
-      then match x with Some f => fault_fails f | None => None end
-      else None
-  | MConn =>
-      match flat_map conn_fault (ps_faults ps) with
-      | f :: _ => fault_fails f
-      | [] => None
-      end
-  end.
 Definition has_next (r : response) : bool :=
   match r with RRows _ (Some _) => true | _ => false end.
 
-(* [Some (k, e)]: pages 0..k-1 are read (faults retried, more pages announced), the fetch of
-   page k fails with e *)
-Fixpoint fail_point (m : mode) (script : list pscript) : option (nat * err) :=
+(* ---- how one page request ends, from the meaning of the four decisions ------------------
+   Written without targets: only HOW MANY targets the plan still holds matters for the outcome.
+   [left] = targets not tried yet.  A connection that cannot be acquired and a RetryNextTarget
+   both move to the next target (the request fails with the last error when there is none);
+   RetrySameTarget and a transparent re-prepare stay; DontRetry and the client timeout fail the
+   request; IgnoreWriteError ends it without a response. *)
+Inductive pout :=
+| PoResp (r : response)
+| PoErr (e : err)
+| PoIgnored (e : err).
+
+Fixpoint spec_attempts (fs : list fault) (left : nat) (resp : response) : pout :=
+  match fs with
+  | [] => PoResp resp
+  | FConnFail :: fs' => match left with O => PoErr e_pool | S l => spec_attempts fs' l resp end
+  | FTimeout :: _ => PoErr e_timeout
+  | FUnprep :: fs' => spec_attempts fs' left resp
+  | FErr e DSame :: fs' => spec_attempts fs' left resp
+  | FErr e DNext :: fs' => match left with O => PoErr e | S l => spec_attempts fs' l resp end
+  | FErr e DDont :: _ => PoErr e
+  | FErr e DIgnore :: _ => PoIgnored e
+  end.
+
+(* [n] = number of nodes of the cluster (every plan is a permutation of them, see plans_ok) *)
+Definition spec_page (m : mode) (n : nat) (ps : pscript) : pout :=
+  match m with
+  | MSession =>
+      match n with
+      | O => PoErr e_empty_plan
+      | S l => spec_attempts (ps_faults ps) l (ps_resp ps)
+      end
+  | MConn => spec_attempts (flat_map conn_fault (ps_faults ps)) 0 (ps_resp ps)
+  end.
+
+(* the scripts the count-based specification speaks about: every plan is a duplicate-free
+   enumeration of the same node set *)
+Definition plans_ok (nodes : list target) (script : list pscript) : bool :=
+  nodupb nodes &&
+  forallb (fun ps => nodupb (ps_plan ps) &&
+                     Nat.eqb (List.length (ps_plan ps)) (List.length nodes) &&
+                     forallb (fun t => existsb (N.eqb t) nodes) (ps_plan ps)) script.
+
+(* THE PROPERTY, as the item stream a full read must deliver ([None]: the script lets the
+   server go silent, no claim).  Pages are read up to the first one without a next state.
+   [strict = true] is the property text: EVERY way a page request ends without rows -- DontRetry,
+   client timeout, plan exhausted, empty plan, no connection, a response that is not Rows,
+   IgnoreWriteError -- surfaces as an error after the rows of the earlier pages, then the end.
+   [strict = false] differs in one place and describes what the code does: an IgnoreWriteError
+   decision ends the stream silently (observation O1, known-finding class below). *)
+Fixpoint expected (strict : bool) (m : mode) (n : nat) (first : bool) (script : list pscript)
+  : option (list item) :=
   match script with
   | [] => None
   | ps :: rest =>
-      match page_fails m ps with
-      | Some e => Some (O, e)
-      | None =>
-          if is_rows (ps_resp ps) && page_retried m ps && has_next (ps_resp ps)
-          then match fail_point m rest with Some (k, e) => Some (S k, e) | None => None end
-          else None
+      match spec_page m n ps with
+      | PoErr e => Some [IErr e; IEnd]
+      | PoIgnored e => if strict then Some [IErr e; IEnd] else Some [IEnd]
+      | PoResp (RRows rows (Some _)) =>
+          match expected strict m n false rest with
+          | Some l => Some (map IRow rows ++ l)
+          | None => None
+          end
+      | PoResp (RRows rows None) => Some (map IRow rows ++ [IEnd])
+      | PoResp RVoid =>
+          (* a Session pager treats a non-Rows RESULT as the FIRST page as an empty result *)
+          match m, first with
+          | MSession, true => Some [IEnd]
+          | _, _ => Some [IErr e_unexpected; IEnd]
+          end
+      | PoResp RNonResult => Some [IErr e_unexpected; IEnd]
       end
   end.
 
-(* RetryDecision::IgnoreWriteError on a page fetch: the code logs a warning and stops fetching;
-   the stream then ends WITHOUT an error (see docs/C07.md, observation O1) *)
-Definition fault_ignored (f : fault) : bool :=
-  match f with FErr _ DIgnore => true | _ => false end.
-Definition page_ignored (m : mode) (ps : pscript) : bool :=
-  match m with
-  | MSession =>
-      let (pre, x) := split_retried (ps_faults ps) in
-      nodupb (ps_plan ps) &&
-      (List.length (filter fault_advances pre) <? List.length (ps_plan ps))%nat &&
-      match x with Some f => fault_ignored f | None => false end
-  | MConn => false
+(* known-finding class "ignore-write-error-silent-end": the first page request that does not
+   return "rows, more pages" ends in IgnoreWriteError *)
+Fixpoint known_ignored (m : mode) (n : nat) (script : list pscript) : bool :=
+  match script with
+  | [] => false
+  | ps :: rest =>
+      match spec_page m n ps with
+      | PoIgnored _ => true
+      | PoResp (RRows _ (Some _)) => known_ignored m n rest
+      | _ => false
+      end
   end.
-Fixpoint ignore_point (m : mode) (script : list pscript) : option nat :=
+
+(* [Some (k, e)]: pages 0..k-1 are read and announce more pages, the request of page k ends
+   without rows, with error e -- every kind of failure listed above *)
+Fixpoint fail_point (m : mode) (n : nat) (first : bool) (script : list pscript)
+  : option (nat * err) :=
   match script with
   | [] => None
   | ps :: rest =>
-      if page_ignored m ps then Some O
-      else if is_rows (ps_resp ps) && page_retried m ps && has_next (ps_resp ps)
-      then match ignore_point m rest with Some k => Some (S k) | None => None end
-      else None
+      match spec_page m n ps with
+      | PoErr e => Some (O, e)
+      | PoIgnored e => Some (O, e)
+      | PoResp (RRows _ (Some _)) =>
+          match fail_point m n false rest with Some (k, e) => Some (S k, e) | None => None end
+      | PoResp (RRows _ None) => None
+      | PoResp RVoid =>
+          match m, first with
+          | MSession, true => None
+          | _, _ => Some (O, e_unexpected)
+          end
+      | PoResp RNonResult => Some (O, e_unexpected)
+      end
   end.
-Definition spec_truncated_stream (pages : list page) (k : nat) : list item :=
-  map IRow (concat (map fst (firstn k pages))) ++ [IEnd].
 
 (* ---- comparison helpers for the correspondence driver (decidable equalities) ------------ *)
 
@@ -652,22 +700,26 @@ Definition accept_drop (m : mode) (script : list pscript) (n : nat)
   | SStuck => false
   end.
 
-(* the property itself as a predicate on observed outputs (used only after a mismatch):
-   for a good script the full read must equal the specification *)
-Definition prop_full_ok (m : mode) (script : list pscript)
-           (obs_items_ : list item) (obs_keys : list (nat * option pstate)) : bool :=
-  if good_script m script then
-    list_eqb item_eqb obs_items_ (spec_stream (script_pages script)) &&
-    list_eqb key_eqb obs_keys (spec_requests m script)
-  else
-    match fail_point m script with
-    | Some (k, e) => list_eqb item_eqb obs_items_ (spec_error_stream (script_pages script) k e)
-    | None => true
-    end.
+(* THE PROPERTY as a predicate on what was observed.  Every request must carry the state
+   returned with the page before it (for EVERY script); the items must be the expected stream
+   (full read) resp. its first n items (the caller took n items and dropped the stream).
+   How many requests a page needed is not part of the property (the acceptors compare it). *)
+Definition states_ok (script : list pscript) (obs_keys : list (nat * option pstate)) : bool :=
+  forallb (fun k => opt_eqb (list_eqb N.eqb) (snd k) (spec_state (script_pages script) (fst k)))
+          obs_keys.
 
-Definition prop_drop_ok (m : mode) (script : list pscript)
+Definition prop_full_ok (m : mode) (n : nat) (script : list pscript)
            (obs_items_ : list item) (obs_keys : list (nat * option pstate)) : bool :=
-  if good_script m script then
-    is_prefix item_eqb obs_items_ (spec_stream (script_pages script)) &&
-    is_prefix key_eqb obs_keys (spec_requests m script)
-  else true.
+  states_ok script obs_keys &&
+  match expected true m n true script with
+  | Some its => list_eqb item_eqb obs_items_ its
+  | None => true
+  end.
+
+Definition prop_drop_ok (m : mode) (n : nat) (script : list pscript) (cnt : nat)
+           (obs_items_ : list item) (obs_keys : list (nat * option pstate)) : bool :=
+  states_ok script obs_keys &&
+  match expected true m n true script with
+  | Some its => list_eqb item_eqb obs_items_ (firstn cnt its)
+  | None => true
+  end.
